@@ -170,4 +170,45 @@ PROPS = {
             "I/O, CLI and configuration sites are the business of C14/C16/C18 (classified in Props/C04Sites.lean)",
         ],
     },
+    "C03": {
+        "theorems": {
+            "Solstat.Props.C03": ["pushFile_spec", "analyzeEntry_exact", "analyzeEntries_exact", "analyzeDir_exact", "analyzeEntries_ok_iff"],
+            "Solstat.Props.C16": ["flatMap_eligibleFilesFrom", "analyzeDir_exact'", "contentsOf_perm", "analyzeDir_perm"],
+        },
+        "obs": [("dir", [])],
+        "kinds": ["DIR"],
+        "rule": "a case is one real directory tree (random shape, depth <= 3, eligible and ineligible names, listing order as read_dir returns it) analysed by one of the three real analyze_dir with a random pattern selection; distinct by SHA-1 of the request; non-trivial when the result has at least one finding",
+        "assumptions": [
+            "the per-file analysis is an arbitrary function in the theorems; in the correspondence it is the observed table of analyze_for_* results per eligible file",
+            "listing-order independence (analyzeDir_perm) needs the per-file analysis not to depend on the file number: observed on every file (two file numbers) and see C15/C17",
+            "HashMap<P, Vec<..>> is modelled as a function from patterns to push-ordered vectors; a key is present iff its vector is non-empty",
+            "file-system: read_dir order is what the harness records immediately before the call (real trees under a scratch root, removed afterwards)",
+        ],
+    },
+    "C16": {
+        "theorems": {
+            "Solstat.Props.C16": ["eligible_iff", "contentsOf_insert_ineligible", "contentsOf_dir_congr", "ineligible_inert",
+                                  "eligibleFilesFrom_names", "analyzeDir_ok_iff", "ineligible_cannot_fail"],
+            "Solstat.Props.C03": ["analyzeDir_exact"],
+        },
+        "obs": [("dir", [])],
+        "kinds": ["DIR"],
+        "assumptions": [
+            "Rust's to_lowercase produces one of '.', 't', 's', 'o', 'l' only from ASCII input: checked exhaustively over all Unicode scalar values on every run (generator statistic non_ascii_chars_lowercasing_into_dot_t_sol must be 0)",
+            "valid-Unicode file names (the code panics on non-UTF-8 names: outside the property's quantifier)",
+            "the file system is an idealised listing: symlinks, permissions, concurrent modification are not modelled",
+        ],
+    },
+    "C15": {
+        "theorems": {
+            "Solstat.Props.C16": ["entry_local", "no_global_state"],
+            "Solstat.Props.C03": ["analyzeDir_exact"],
+        },
+        "obs": [("dir", []), ("threads", [])],
+        "kinds": ["DIR", "THREADS"],
+        "assumptions": [
+            "determinism and repetition are properties of functions in the model; for the code they rest on the absence of shared state (theorem no_global_state on the regenerated inventory) and on the 16-thread stress comparison (runtime part, not proved)",
+            "independence of the file number is observed on every file (two file numbers per call, generator statistic file_number_dependent_results must be 0); its proof is the equivariance of C17",
+        ],
+    },
 }
